@@ -19,6 +19,7 @@ from ..dataflow import dataflow_of, walk_scope
 from ..model import AnalysisError, Func, dotted, norm_stmt, parent
 from ..paths import PathFinder, cond_facts, describe_path
 from ..terms import Term, contains, show, subterms
+from ..pattern import norm
 from ..util import calls_in, catching_handler, deep_subterms, nodes_in, walrus_binds_before
 
 P = "C14"
@@ -1051,3 +1052,63 @@ def c14_9(ctx: Ctx) -> RuleResult:
         i.rule = "C14.9"
     r.rule, r.title, r.floor = "C14.9", "the failure flags reported with a result (read by the all-failed test of the optimizer) are the flags the result was computed with", 1
     return r
+
+
+# --------------------------------------------------------------------- C14.10
+@rule(P)
+def c14_10(ctx: Ctx) -> RuleResult:
+    """The SVD-based solver raises (argmin of an empty sequence) on a system without rows.  Sibling agreement: the
+    per-realization estimate calls it only where some perturbation succeeded; every other call site must be guarded
+    by `any(<its row selector>)` as well - with realization_min_success = 0 all rows can be dropped."""
+    from ..util import bool_nnf, context_chain, enclosing_ifs_ctx, path_condition
+    from .c02 import _bool_selectors, solver
+    from ..callgraph import positional_args
+
+    res = RuleResult("C14.10", "DOM", "the least-squares solver is never handed an empty system: every call is guarded by any(<row selector>)")
+    X = ctx.X
+    s = solver(ctx)
+    for f, c in ctx.cg.callers(s):
+        sels = []
+        for g_, t_ in context_chain(ctx, f, X.at(f, c)):
+            mr = positional_args(s, t_)[:2]
+            if len(mr) == 2 and mr[0] is not None and mr[0][0] == "sub":
+                sels = _bool_selectors(mr[0][2])
+                if sels:
+                    break
+        st_ = c
+        while parent(st_) is not None and not isinstance(st_, ast.stmt):
+            st_ = parent(st_)
+        # conditions at the call: in its own function and, through single call sites, in its callers
+        lits = []
+        cur_f, cur_n = f, st_
+        for _ in range(4):
+            for t_, pol in path_condition(ctx, cur_f, cur_n):
+                g_ = bool_nnf(t_ if pol else ("unary", "not", t_))
+                lits.extend(x for x in (g_[1] if g_[0] == "and" else [g_]) if x[0] == "lit")
+            from ..util import unique_caller
+
+            uc = unique_caller(ctx, cur_f)
+            if uc is None:
+                break
+            cur_f, cn = uc
+            cur_n = cn
+            while parent(cur_n) is not None and not isinstance(cur_n, ast.stmt):
+                cur_n = parent(cur_n)
+        guarded = False
+        for it in lits:
+            a = norm(it[1])
+            if it[2] and a[0] == "call" and a[1] in (("global", "numpy.any"), ("builtin", "any")) and a[2]:
+                # any(<selector>) or any(<a conjunct of the selector>)
+                arg = a[2][0]
+                if not sels or any(norm(sel) == arg or contains(norm(sel), lambda y, arg=arg: y == arg) or contains(arg, lambda y, sel=sel: y == norm(sel)) for sel in sels):
+                    guarded = True
+            if it[2] and a[0] == "cmp" and a[1] in ("<", "!=") and C0 in (a[2], a[3]) and contains(a, lambda y: y[0] == "call" and y[1] in (("global", "numpy.count_nonzero"), ("global", "numpy.sum"))):
+                guarded = True
+        res.add(f, c, "the solver is called only where at least one row (successful perturbation of an active realization) is left", guarded,
+                "" if guarded else "the system can be empty (all realizations failed with realization_min_success = 0, or all perturbations failed): the solver raises ValueError (argmin of an empty sequence) instead of the run ending with TOO_FEW_REALIZATIONS",
+                construct=f"{f.name}: non-empty system")
+    res.floor = 2
+    return res
+
+
+C0 = ("const", 0)
